@@ -102,6 +102,14 @@ def slice {α : Type} (l : List α) (a b : Nat) : Res (List α) :=
   if a ≤ b ∧ b ≤ l.length then ok ((l.drop a).take (b - a)) else panic
 /-- `assert!(c)` -/
 def assert (c : Bool) : Res Unit := if c then ok () else panic
+/-- `&l[a..=b]` (`a > b + 1` or `b ≥ len` panics) -/
+def sliceIncl {α : Type} (l : List α) (a b : Nat) : Res (List α) :=
+  if a ≤ b + 1 ∧ b < l.length then ok ((l.drop a).take (b + 1 - a)) else panic
+/-- `o.expect("..")` / `o.unwrap()` (`None` panics) -/
+def expect {α : Type} (o : Option α) : Res α :=
+  match o with
+  | some a => ok a
+  | none => panic
 
 /-! ### the operations succeed inside the range (simp lemmas for the equality proofs) -/
 
@@ -128,6 +136,10 @@ theorem setIdx_ok {α : Type} {l : List α} {i : Nat} {v : α} (h : i < l.length
 theorem slice_ok {α : Type} {l : List α} {a b : Nat} (h1 : a ≤ b) (h2 : b ≤ l.length) :
     slice l a b = ok ((l.drop a).take (b - a)) := by simp [slice, h1, h2]
 theorem assert_ok {c : Bool} (h : c = true) : assert c = ok () := by simp [assert, h]
+theorem sliceIncl_ok {α : Type} {l : List α} {a b : Nat} (h1 : a ≤ b + 1) (h2 : b < l.length) :
+    sliceIncl l a b = ok ((l.drop a).take (b + 1 - a)) := by simp [sliceIncl, h1, h2]
+@[simp] theorem expect_some {α : Type} (a : α) : expect (some a) = ok a := rfl
+@[simp] theorem expect_none {α : Type} : expect (none : Option α) = panic := rfl
 
 /-! ### iterators (genpm: `Matches::next` of the pattern matchers)
 
